@@ -281,8 +281,11 @@ def install_walker_env(ctx, eng, nsources=1):
         p = pexpr(eng, st, args[0])
         m = OpaqueV("std::fs::Metadata", "lstat:" + repr(p), {"of": p})
         tie(st, p)
+        ioerr = lambda kind: AggV("Result", 1, [OpaqueV("std::io::Error", "lstat_error_%s_%d" % (kind, next(eng.fresh_ids)), {"kind": kind})], "Err")
+        # lstat: ENOENT exactly when there is no such entry; any other failure may strike regardless
         return [Outcome(ok(m), [wfact("lexists", p)], events=[Event("symlink_metadata", [p], "ok")]),
-                Outcome(err("std::io::Error"), events=[Event("symlink_metadata", [p], "err")])]
+                Outcome(ioerr("NotFound"), [z3.Not(wfact("lexists", p))], events=[Event("symlink_metadata", [p], "absent")]),
+                Outcome(ioerr("Other"), events=[Event("symlink_metadata", [p], "err")])]
     for nm in ("is_file", "is_dir", "is_symlink"):
         front(r"^(std::fs::)?Metadata::%s$" % nm, (lambda nm: lambda e, st, c, a, d: Outcome(BoolV(wfact("lstat_" + nm, deref_ref(e, st, a[0]).attrs.get("of")))))(nm))
     front(r"^(std::path::)?Path::symlink_metadata$", s_lstat)
@@ -544,9 +547,14 @@ def _walker(ctx, src_exprs):
             # C08: collision check happens before anything is done for the entry
             noclob = cv["no_clobber"].t
             collided = None
+            # the collision probe: whichever stat-like question the code asks about a path other than the entry it is copying.
+            # What counts as "already there" is the *entry* (lstat): a dangling symbolic link exists and would be written through
+            src_side = (seg["expr"], ("canon", seg["expr"]))
+            ex_t = [e for e in sev if e.name in ("Path::exists", "Path::try_exists", "symlink_metadata", "Path::is_symlink", "Path::is_file")
+                    and e.args and e.args[0] not in src_side]
             if ex_t:
                 ctx.lemma(eng, "C08: the destination is probed for collisions only under no-clobber", p.pc, noclob)
-                collided = ex_t[0].ret.t
+                collided = fs_fact("lexists", repr(ex_t[0].args[0]))
                 check_target(ex_t[0].args[0], "the no-clobber probe")
             if errup and any(isinstance(e.args[0].fields[0], AggV) and e.args[0].fields[0].vname == "DestinationExists" for e in errup):
                 seen.add("collision")
@@ -569,10 +577,18 @@ def _walker(ctx, src_exprs):
                 # the fact that matters is "something exists at the mapped target", whichever probe the code uses
                 tgt = mk[0].args[0] if mk else pexpr(eng, p, ops[0].args[0].fields[1])
                 exists_t = fs_fact("exists", repr(tgt))
-                ax = [z3.Implies(fs_fact("is_dir", repr(tgt)), exists_t), z3.Implies(exists_t, fs_fact("lexists", repr(tgt))),
-                      z3.Implies(fs_fact("lstat_is_file", repr(tgt)), fs_fact("lexists", repr(tgt)))]
-                ctx.lemma(eng, "C08: under no-clobber nothing is queued or created onto an existing destination entry", p.pc + ax,
-                          z3.Implies(noclob, z3.Not(exists_t)), info={"target": repr(tgt)})
+                lex_t = fs_fact("lexists", repr(tgt))
+                ax = [z3.Implies(fs_fact("is_dir", repr(tgt)), exists_t), z3.Implies(exists_t, lex_t),
+                      z3.Implies(fs_fact("lstat_is_file", repr(tgt)), lex_t), z3.Implies(fs_fact("lstat_is_symlink", repr(tgt)), lex_t)]
+                probe_failed = any(e.ret == "err" for e in ex_t)
+                if probe_failed:
+                    # the stat itself failed and the code went on as if nothing were there: the separate "failed stat taken for
+                    # absent" family (std's exists()/is_ok() idiom), see DESIGN section 6 (F7)
+                    ctx.lemma(eng, "C04/C08: a failed stat of the destination is not taken for 'nothing there' (no-clobber decision)", p.pc, z3.Not(noclob),
+                              key="stat-error-taken-for-absent")
+                else:
+                    ctx.lemma(eng, "C08: under no-clobber nothing is queued or created onto an existing destination entry (a dangling symbolic link is an entry too)",
+                              p.pc + ax, z3.Implies(noclob, z3.Not(lex_t)), info={"target": repr(tgt)}, key="walker:noclobber-dangling-link")
             if any_action and collided is None:
                 ctx.lemma(eng, "C08: under no-clobber every entry is probed before it is acted upon", p.pc, z3.Not(noclob))
             if any(is_errev(e) for e in sev):
